@@ -1169,15 +1169,20 @@ func (g *vGen) opening(kind int) string {
 		b := r.intn(g.nb)
 		a := g.opHello(1, b, "c", g.someUser(), 0, 0)
 		o := g.opHello(2, b, "c", g.someUser(), 0, 0)
-		room := g.someRoom()
+		// (the room of the pending join is not the one the session may be in already, and the Nextcloud session
+		// ids differ, so that the join really goes to the backend and nobody is kicked on the way)
+		room, elsewhere := g.rooms[0], g.rooms[1]
 		if r.chance(1, 2) {
-			g.opJoin(o, room, g.someRs(), "ok")
+			room, elsewhere = elsewhere, room
+		}
+		if r.chance(1, 2) {
+			g.opJoin(o, room, "nc2", "ok")
 		}
 		if r.chance(1, 3) {
-			g.opJoin(a, g.someRoom(), g.someRs(), "ok")
+			g.opJoin(a, elsewhere, "nc3", "ok")
 		}
 		g.opConnect(3)
-		g.emit("joinrace s%d %s %s 3", a, vEnc(room), vEnc(g.someRs()))
+		g.emit("joinrace s%d %s %s 3", a, vEnc(room), vEnc("nc1"))
 		g.closeSess(a)
 		g.connOpen[1], g.connOpen[3] = false, false
 		delete(g.connSess, 1)
